@@ -150,6 +150,14 @@ def faults(base):
     s["channels"].append(channel("ZZ3", sample("x3", 3, shapesys("uX", 3))))
     s["channels"].append(channel("ZZ2", sample("x3", 2, shapesys("uX", 2))))
     emit("binwise-shared:shapesys", "appended", s, False)
+    # ... a non-shareable (shapesys) name reused on two samples that are not next to each other in the walk over the spec
+    s = copy.deepcopy(spec0)
+    s["channels"].append(channel("ZZ1", sample("x1", 2, shapesys("uX", 2)), sample("x2", 2, normsys("kX")), sample("x3", 2, shapesys("uX", 2))))
+    emit("binwise-shared:shapesys-nonadjacent", "appended", s, False)
+    s = copy.deepcopy(spec0)
+    s["channels"].append(channel("ZZ1", sample("x1", 2, shapesys("uX", 2)), sample("x2", 2, normsys("kX"))))
+    s["channels"].append(channel("ZZ2", sample("x1", 1, shapesys("uX", 1))))
+    emit("binwise-shared:shapesys-across-channels", "appended", s, False)
     # 6 one parameter name demanded with conflicting constraint types / sizes
     for (ta, tb) in (("normfactor", "normsys"), ("normsys", "shapesys"), ("histosys", "staterror"), ("shapefactor", "normfactor"),
                      ("lumi", "normsys"), ("shapesys", "staterror")):
